@@ -12,8 +12,10 @@ Fixpoint parse_adds (n : nat) (adds : list nat) (rem add : list nat) : list nat 
   match adds with
   | [] => (rem, add)
   | a :: r =>
-    if mem a rem then parse_adds n r (without rem a) add
-    else if negb (known n a) then parse_adds n r rem (without add a)
+    (* existence first (since fix 61dc2db; before, an undefined name listed in
+       both relations was only taken out of Remove and survived in Add) *)
+    if negb (known n a) then parse_adds n r rem (without add a)
+    else if mem a rem then parse_adds n r (without rem a) add
     else parse_adds n r rem add
   end.
 
